@@ -8,8 +8,8 @@ Differential oracle on observable outputs (DESIGN §2/C07):
   inject       t.set_rng(np.random.default_rng(s)) into both (two separate generator objects with equal seeds)
   run          the same input sequence through A and B; the three process-global RNGs are re-seeded *differently*
                before every call and snapshotted around every call
-  judge        outputs(A) == outputs(B), ctx(A) == ctx(B)                     -> instances-disagree
-               re-injecting s into A replays outputs and ctx                   -> replay-differs
+  judge        outputs(A) == outputs(B), ctx(A) == ctx(B)                     -> not-seed-determined (instances disagree)
+               re-injecting s into A replays outputs and ctx                   -> not-seed-determined (replay differs)
                global NumPy / Torch / Python state bit-identical around calls  -> global-rng-consumed
                an in-domain construction / injection / call raising           -> *-crash / *-refused
 
@@ -18,9 +18,10 @@ the smallest sub-tree that still violates, and the mechanism key names the class
 """
 from __future__ import annotations
 
-import importlib
+import random as pyrandom
 
 import numpy as np
+import torch
 
 from . import core
 from . import h07_recipes as H
@@ -135,6 +136,15 @@ def gen_cases(run):
 
 
 # ------------------------------------------------------------------------------------------------ evaluation
+def _seed_globals(seed):
+    """re-seed the three process-global RNGs (same effect as harness.GlobalRngSentinel.seed_all on the CPU generators;
+    torch.manual_seed additionally queues CUDA/XPU/MPS seeding with a formatted stack trace, ~1 ms per call, and the
+    perturbation happens around every observed call)"""
+    np.random.seed(seed % (2 ** 32))
+    torch.default_generator.manual_seed(seed)
+    pyrandom.seed(seed)
+
+
 class _Collector:
     """stand-in for `run` handed to harness.call_real while a (sub-)tree is evaluated: findings are reported only after
     the violating tree has been minimised"""
@@ -200,7 +210,7 @@ def evaluate(spec, stats=None, until=PH_EVIDENCE):
     h = spec["hist"]
 
     # ---- instance A: global seed g1, no history
-    S.seed_all(g1)
+    _seed_globals(g1)
     ok, A = call_real(col, lambda: H.build_composition(tree), crash_key="construct-crash", what="constructing the transform")
     if not ok:
         return fail(PH_SETUP, "construct")
@@ -209,7 +219,7 @@ def evaluate(spec, stats=None, until=PH_EVIDENCE):
         return fail(PH_SETUP, "set_rng")
 
     # ---- instance B: global seed g2, different amount of global draws, call history before the injection
-    S.seed_all(g2)
+    _seed_globals(g2)
     np.random.random(h["burn"])
     ok, B = call_real(col, lambda: H.build_composition(tree), crash_key="construct-crash", what="constructing the transform (2nd instance)")
     if not ok:
@@ -245,7 +255,7 @@ def evaluate(spec, stats=None, until=PH_EVIDENCE):
 
     def one(t, tag, i, pbase, phase):
         """one observed call: perturb the global RNGs, snapshot, call, snapshot -> (canon(out), canon(ctx)) | finding"""
-        S.seed_all(pert[(pbase + i) % len(pert)] + 17 * i + pbase)
+        _seed_globals(pert[(pbase + i) % len(pert)] + 17 * i + pbase)
         if (pbase + i) % 2:
             np.random.random(3)  # different amounts of global draws before the call as well
         before = S.snapshot()
@@ -273,7 +283,7 @@ def evaluate(spec, stats=None, until=PH_EVIDENCE):
         bump("outputs_compared")
         if a != b:
             part = "output" if a[0] != b[0] else "recorded ctx"
-            return {"kind": "instances-disagree", "phase": PH_PAIR,
+            return {"kind": "not-seed-determined", "phase": PH_PAIR,
                     "what": f"two independently constructed instances given set_rng(default_rng({spec['s']})) disagree on the {part} of call {i} "
                             f"(A: built under global seed {g1}, no history; B: built under {g2}, history {h}){_census_hint(A)}"}
         ra.append(a)
@@ -291,7 +301,7 @@ def evaluate(spec, stats=None, until=PH_EVIDENCE):
             return r_
         if r_ != ra[i]:
             part = "output" if r_[0] != ra[i][0] else "recorded ctx"
-            return {"kind": "replay-differs", "phase": PH_REPLAY,
+            return {"kind": "not-seed-determined", "phase": PH_REPLAY,
                     "what": f"re-injecting default_rng({spec['s']}) into the same instance does not replay the {part} of call {i}{_census_hint(A)}"}
     bump("replays_compared")
     if until < PH_EVIDENCE:
@@ -324,14 +334,14 @@ def _census_hint(A):
     return ""
 
 
-def _sub(spec, node):
+def _sub(spec, node, boost=1):
     """self-contained spec for a sub-tree; more inputs than the original case so that rarely-applied members (small p) still
     show their draws when the sub-tree is judged alone"""
     T = dict(node["in"])
     if "h" in T and T["h"] is None:  # size unknown at generation time (after a random resize): any size is in-domain
         T.update(h=21, w=30)
         node = dict(node, **{"in": T})
-    n = 32 if node["t"] == "leaf" else 12
+    n = (32 if node["t"] == "leaf" else 12) * boost
     xs = list(spec["x_seeds"]) + [spec["x_seeds"][0] + 1000 + i for i in range(n - len(spec["x_seeds"]))]
     return dict(spec, tree=node, x_seeds=xs, **{"in": T})
 
@@ -348,18 +358,27 @@ def _minimise(spec, finding):
     """-> list of (sub_spec, finding): minimal violating sub-trees (violating when judged alone, no violating child).
     Top-down: only the children of violating nodes are judged."""
     out = []
+    # construction / injection failures do not depend on draws: the same phase decides for every sub-tree, one round is enough
+    setup_failure = finding["kind"].split(":")[0] in ("construct-crash", "construct-refused", "set_rng-crash", "set_rng-refused",
+                                                      "worker_init-crash", "worker_init-refused") and finding["phase"] == PH_SETUP
+    until = PH_SETUP if setup_failure else max(finding["phase"], PH_PAIR)
 
     def descend(cur_spec, cur_finding):
-        hit = False
-        for ch in _children(cur_spec["tree"]):
-            if ch["t"] == "leaf" and not H.RECIPES[ch["recipe"]].kd:
-                continue
-            sub = _sub(spec, ch)
-            f = evaluate(sub, until=finding["phase"])
-            if f is not None:
-                hit = True
-                descend(sub, f)
-        if not hit:
+        children = [ch for ch in _children(cur_spec["tree"]) if not (ch["t"] == "leaf" and not H.RECIPES[ch["recipe"]].kd)]
+        hits = []
+        for boost in ((1,) if setup_failure else (1, 4)):
+            # second round (only when no child violated alone, i.e. before the container itself is blamed): many more inputs,
+            # so that members that are applied rarely / on tiny patches get a fair chance to show their own draws
+            for ch in children:
+                sub = _sub(spec, ch, boost)
+                f = evaluate(sub, until=until)
+                if f is not None:
+                    hits.append((sub, f))
+            if hits:
+                break
+        for sub, f in hits:
+            descend(sub, f)
+        if not hits:
             out.append((cur_spec, cur_finding))
 
     descend(spec, finding)
